@@ -317,32 +317,32 @@ def svecPush (v : SVec) (h : Heap) : Outcome :=
 
 /-! ## PIP tree: `Safe_Ptr` guard in the copy constructor of `PIP_Decision_Node` -/
 
+/-- A solution tree; `null` is an absent child (`false_child == nullptr`). -/
 inductive PNode where
+  | null : PNode
   | sol : PNode
-  | dec : Option PNode → Option PNode → PNode
+  | dec : PNode → PNode → PNode
 deriving Repr
 
 /-- Blocks of a cloned subtree. -/
 inductive PBlocks where
+  | null : PBlocks
   | sol (storage content : Nat) : PBlocks
-  | dec (storage content : Nat) (f t : Option PBlocks) : PBlocks
+  | dec (storage content : Nat) (f t : PBlocks) : PBlocks
 deriving Repr
 
-mutual
 /-- `delete node` (virtual destructor: children first for a decision node, then the base). -/
 def pDelete : PBlocks → Heap → Heap
+  | .null, h => h
   | .sol s c, h => (h.free c).free s
-  | .dec s c f t, h => (((pDeleteOpt t (pDeleteOpt f h))).free c).free s
-def pDeleteOpt : Option PBlocks → Heap → Heap
-  | none, h => h
-  | some b, h => pDelete b h
-end
+  | .dec s c f t, h => ((pDelete t (pDelete f h)).free c).free s
 
-mutual
 /-- `node->clone()` = `new T(*this)`: storage, then the copy constructor; the new-expression
 frees the storage if the constructor throws.  `guard = true` is the code as written
-(`Safe_Node safe_node(false_child)` protects the first clone while the second is made). -/
+(`Safe_Node safe_node(false_child)` protects the first clone while the second is made);
+`none` = the clone threw. -/
 def pClone (guard : Bool) : PNode → Heap → Option PBlocks × Heap
+  | .null, h => (some .null, h)
   | .sol, h =>
     match h.alloc with
     | (none, h1) => (none, h1)
@@ -357,22 +357,14 @@ def pClone (guard : Bool) : PNode → Heap → Option PBlocks × Heap
       match h1.alloc with                     -- base PIP_Tree_Node(y): constraints_, parameters
       | (none, h2) => (none, h2.free s)
       | (some c, h2) =>
-        match pCloneOpt guard f h2 with
+        match pClone guard f h2 with
         | (none, h3) => (none, (h3.free c).free s)          -- ~PIP_Tree_Node, then the storage
         | (some fb, h3) =>
-          match pCloneOpt guard t h3 with
+          match pClone guard t h3 with
           | (none, h4) =>
-            let h5 := if guard then pDeleteOpt fb h4 else h4  -- ~Safe_Ptr deletes false_child
+            let h5 := if guard then pDelete fb h4 else h4   -- ~Safe_Ptr deletes false_child
             (none, (h5.free c).free s)
           | (some tb, h4) => (some (.dec s c fb tb), h4)
-/-- Cloning an optional child: `none` result = thrown; `some none` = there was no child. -/
-def pCloneOpt (guard : Bool) : Option PNode → Heap → Option (Option PBlocks) × Heap
-  | none, h => (some none, h)
-  | some n, h =>
-    match pClone guard n h with
-    | (none, h1) => (none, h1)
-    | (some b, h1) => (some (some b), h1)
-end
 
 /-- Clone a solution tree (copy of a solved `PIP_Problem`), then delete the clone. -/
 def pipClone (guard : Bool) (t : PNode) (h : Heap) : Outcome :=
